@@ -792,17 +792,24 @@ def run_resilient(binpath, requests, timeout=900):
     return answers
 
 
-def run_translators(run, need_cmp=False):
-    ok = True
-    names = ["fold_rules.py", "expr_arms.py"] + (["eval_arms.py"] if need_cmp else [])
-    for t in names:
+def run_translators(run, need_fold=True):
+    """Returns (all needed translators ok, fold table regenerated).  C11 does not depend on the fold
+    table: if fold_rules.py fails there, the stale table is kept (Model.v still compiles) and the
+    folder-related comparisons are skipped instead of alarming."""
+    ok, fold_ok = True, True
+    for t in ["fold_rules.py", "expr_arms.py"]:
         p = sh(["python3", os.path.join(VERIF, "translate", t)], timeout=120)
         if p.returncode != 0:
+            if t == "fold_rules.py":
+                fold_ok = False
+                if not need_fold:
+                    run.extra.setdefault("translators", []).append("fold_rules.py failed (not needed here): " + (p.stdout + p.stderr)[-300:])
+                    continue
             run.tie_broken("translator translate/%s" % t, (p.stdout + p.stderr)[-2000:])
             ok = False
         else:
             run.extra.setdefault("translators", []).append((p.stdout.strip().split("\n") or [""])[-1][:300])
-    return ok
+    return ok, fold_ok
 
 
 def stamp(run, what):
@@ -810,9 +817,9 @@ def stamp(run, what):
     run.extra.setdefault("timing", []).append("%s@%.0fs" % (what, time.time() - run.t0))
 
 
-def build_all(run, targets, audit_file, allow=()):
-    """translators + Coq obligations + harness.  Returns (binpath or None, model_ok)."""
-    t_ok = run_translators(run)
+def build_all(run, targets, audit_file, allow=(), need_fold=True):
+    """translators + Coq obligations + harness.  Returns (binpath or None, model_ok, fold_table_ok)."""
+    t_ok, fold_ok = run_translators(run, need_fold)
     stamp(run, "translators")
     proved = coqtools.prove(run, targets, audit_file, allow)
     stamp(run, "prove")
@@ -825,8 +832,8 @@ def build_all(run, targets, audit_file, allow=()):
     stamp(run, "harness")
     if not okb:
         run.tie_broken("harness build vp-expr", blog[-3000:])
-        return None, okr
-    return os.path.join(bindir, "vp-expr"), okr
+        return None, okr, fold_ok
+    return os.path.join(bindir, "vp-expr"), okr, fold_ok
 
 
 def model_eval(run, tag, cases):
@@ -955,7 +962,7 @@ def short(x, n=400):
     return s if len(s) <= n else s[:n] + "..."
 
 
-def judge_ast(e, events, ans, model):
+def judge_ast(e, events, ans, model, fold_ok=True):
     """One AST-level case.  Returns dict with lists of failure strings:
        c10  folded and unfolded expression differ on the implementation / the folder panics
        c11  the implementation panics or aborts while evaluating the (unfolded) expression
@@ -976,12 +983,14 @@ def judge_ast(e, events, ans, model):
         if rf is not None and su != sf:
             out["c10"].append("event %d: unfolded gives %s, folded (%s) gives %s" % (k, su, short(fi, 160), sf))
     if model is not None:
-        if fi != model["fold"]:
+        if fold_ok and fi != model["fold"]:
             out["corr"].append("folded expression differs: impl %s, model %s" % (short(fi, 300), short(model["fold"], 300)))
         for k, (ev, (ru, rf), (mu, mf)) in enumerate(zip(events, ans["res"], model["res"])):
             if opaque_reason(e, ev):
                 continue
             su, sf = r_result(ru), r_result(rf)
+            if not fold_ok:
+                sf = mf = "-"          # the fold table could not be regenerated: compare the unfolded side only
             if str(MARKER) in mu or str(MARKER) in mf:
                 su, sf, mu, mf = su[:1], sf[:1], mu[:1], mf[:1]
             if (su, sf) != (mu, mf):
@@ -1055,7 +1064,7 @@ def is_simple_emit(e):
     return "id" in e or "s" in e
 
 
-def judge_program(case, ans, models):
+def judge_program(case, ans, models, fold_ok=True):
     """case = (where|None, [(name, expr)..], events, text).  models: list (per parsed expression, in
     the order where?, emit fields) of model answers, or None."""
     where, emits, events, text = case
@@ -1082,11 +1091,13 @@ def judge_program(case, ans, models):
         return out
     # model: folded ASTs
     for j, (m, fe) in enumerate(zip(models, fo)):
-        if m["fold"] != "F:" + r_expr(fe):
+        if fold_ok and m["fold"] != "F:" + r_expr(fe):
             out["corr"].append("expression %d: parse() folds to %s, model to %s" % (j, short(r_expr(fe), 200), short(m["fold"], 200)))
     has_where = where is not None
     names = [n for n, _ in emits]
     for side, asts, r, o in (("unfolded", un, ru, ou), ("folded", fo, rf, of)):
+        if side == "folded" and not fold_ok:
+            continue
         idx = 0 if side == "unfolded" else 1
         emit_asts = asts[1:] if has_where else asts
         if all(is_simple_emit(x) for x in emit_asts):
@@ -1235,7 +1246,7 @@ def py_identity_fires(e):
 
 
 
-def run_all(run, binpath, tag, ast_cases, prog_cases):
+def run_all(run, binpath, tag, ast_cases, prog_cases, fold_ok=True):
     """Implementation runs for the AST cases and the program cases, then ONE model batch for both
     (every coqc shard pays the load time of the libraries once).  Returns
     ([(expr, events, answer, model, verdict)..], [((where, emits, events, text), answer, verdict)..])."""
@@ -1261,7 +1272,7 @@ def run_all(run, binpath, tag, ast_cases, prog_cases):
     models = model_eval(run, tag, list(ast_cases) + mcases)
     stamp(run, tag + "-model")
     a_models, p_models = models[:len(ast_cases)], models[len(ast_cases):]
-    ast_out = [(e, evs, a, m, judge_ast(e, evs, a, m)) for (e, evs), a, m in zip(ast_cases, a_ans, a_models)]
+    ast_out = [(e, evs, a, m, judge_ast(e, evs, a, m, fold_ok)) for (e, evs), a, m in zip(ast_cases, a_ans, a_models)]
     per = {}
     for k, m in zip(owner, p_models):
         per.setdefault(k, []).append(m)
@@ -1270,5 +1281,5 @@ def run_all(run, binpath, tag, ast_cases, prog_cases):
         ms = per.get(k)
         if ms is not None and not isinstance(a.get("unfolded"), dict) and len(ms) != len(a["unfolded"]):
             ms = None
-        prog_out.append((c, a, judge_program(c, a, ms)))
+        prog_out.append((c, a, judge_program(c, a, ms, fold_ok)))
     return ast_out, prog_out
